@@ -31,7 +31,10 @@ CONSTANTS Shapes,      \* set of records [name, cells, valid]  (valid = FALSE: t
           CRegSets,    \* Part C: set of sets of rectangles [name, x0, y0, x1, y1] (px)
           CLineSet,    \* Part C: set of tilted baselines [slot, di, a, d, n, ks, h]
           CMaxLines,   \* Part C: at most that many baselines on a page
-          MergeBackSame \* TRUE (self-test only): merge_lines rotates "back" by the SAME angle as forth (seeded slip C11-A8)
+          MergeBackSame, \* TRUE (self-test only): merge_lines rotates "back" by the SAME angle as forth (seeded slip C11-A8)
+          CEdits,      \* Part C: in-place edits [f, dx, dy] of the region polygons between two passes (scale by f, then shift)
+          StaleOutline \* TRUE (self-test only): the clipping outline is kept with the region object and reused by later calls
+                       \* although region.polygon was edited in place (seeded slip C11-A9)
 
 VARIABLES regs,        \* set of shapes on the page / returned by the stub detector
           lines,       \* sequence of detected lines [j, a, b]
@@ -202,7 +205,11 @@ MergeDone == /\ phase = "merge" /\ mi > Len(page)
    to the region again.  Lines in rows that do not overlap are not mergeable: for them the two rotations cancel and the line is
    placed as it was detected - which is what the statement says about every line wholly inside a region.  Points are kept as
    integer numerators: after the merge step every coordinate is scaled by s = n^2.
-   Pieces of baselines that cross a rectangle's border are not modelled here (left to the trace layer: any piece).          *)
+   Pieces of baselines that cross a rectangle's border are not modelled here (left to the trace layer: any piece).
+   History (round 9): after the first pass the caller may edit the polygons of the SAME region objects in place (CEdit: scale by f
+   together with the detected lines = the page at another resolution, or shift the regions only) and run a second pass (oi = 2).
+   assign_lines_to_regions keeps no state: every call clips with the polygon as it is THEN.  StaleOutline = TRUE models an outline
+   cached with the region object (page = the cached rectangles), which the second pass would reuse.                           *)
 CAbs(x) == IF x < 0 THEN -x ELSE x
 CPts(l) == [m \in 1..Len(l.ks) |-> <<l.a[1] + l.ks[m] * l.d[1], l.a[2] + l.ks[m] * l.d[2]>>]
 CScale(pts, s) == [m \in 1..Len(pts) |-> <<s * pts[m][1], s * pts[m][2]>>]
@@ -223,11 +230,17 @@ CInit == /\ regs \in CRegSets /\ lines \in CLineLists
          /\ opt \in [dr : {FALSE}, dl : {TRUE}, merge : BOOLEAN, multi : {FALSE}]
          /\ page = <<>> /\ oi = 1 /\ mi = 1 /\ phase = "c-detect"
 \* orientation loop (one orientation): every baseline wholly inside a rectangle is placed there unchanged
+\* the rectangle a region is clipped with: its polygon as it is now (StaleOutline: the outline cached by an earlier call)
+COutline(r) == IF StaleOutline /\ \E k \in 1..Len(page) : page[k].name = r.name
+               THEN page[CHOOSE k \in 1..Len(page) : page[k].name = r.name] ELSE r
+RECURSIVE CSeqOfRects(_)
+CSeqOfRects(S) == IF S = {} THEN <<>> ELSE LET r == CHOOSE x \in S : TRUE IN <<r>> \o CSeqOfRects(S \ {r})
 CAssign == /\ phase = "c-detect"
            /\ placed' = {[region |-> rn[1].name, line |-> rn[2], pts |-> CPts(lines[rn[2]]), s |-> 1] :
-                            rn \in {x \in regs \X (1..Len(lines)) : CWhollyIn(x[1], lines[x[2]])}}
+                            rn \in {x \in regs \X (1..Len(lines)) : CWhollyIn(COutline(x[1]), lines[x[2]])}}
+           /\ page' = IF StaleOutline THEN CSeqOfRects({COutline(r) : r \in regs}) ELSE page
            /\ phase' = IF opt.merge THEN "c-merge" ELSE "done"
-           /\ UNCHANGED <<regs, lines, opt, page, oi, mi>>
+           /\ UNCHANGED <<regs, lines, opt, oi, mi>>
 CRegLines(name) == {p \in placed : p.region = name}
 \* get_rotation: lines_info[0 : int(len / 2)] - no rotation for fewer than two lines (<<CN, 0>> = angle 0 at the same scale)
 CTilt(name) == IF Cardinality(CRegLines(name)) < 2 THEN <<CN, 0>> ELSE CDir
@@ -240,10 +253,20 @@ CBack(q, d) == IF MergeBackSame THEN RotF(q, d) ELSE RotB(q, d)
 CMerge == /\ phase = "c-merge" /\ CUnmergeable
           /\ LET moved == {[p EXCEPT !.pts = [m \in DOMAIN p.pts |-> CBack(RotF(p.pts[m], CTilt(p.region)), CTilt(p.region))],
                                      !.s = CN * CN] : p \in placed}
-             IN placed' = {q \in moved : \A m \in DOMAIN q.pts : CInRect(CRect(q.region), q.pts[m], q.s)}
+             IN placed' = {q \in moved : \A m \in DOMAIN q.pts : CInRect(COutline(CRect(q.region)), q.pts[m], q.s)}
           /\ phase' = "done"
           /\ UNCHANGED <<regs, lines, opt, page, oi, mi>>
-CNext == CAssign \/ CMerge
+\* between two passes the caller edits region.polygon IN PLACE (same region objects, same array objects): scale by e.f (the page
+\* at another resolution: the detected lines scale with it) and / or shift the regions; DETECT_LINES empties the regions again
+CEditRect(r, e) == [r EXCEPT !.x0 = e.f * r.x0 + e.dx, !.x1 = e.f * r.x1 + e.dx, !.y0 = e.f * r.y0 + e.dy, !.y1 = e.f * r.y1 + e.dy]
+CEditLine(l, e) == [l EXCEPT !.a = <<e.f * l.a[1], e.f * l.a[2]>>, !.ks = [m \in 1..Len(l.ks) |-> e.f * l.ks[m]],
+                             !.h = <<e.f * l.h[1], e.f * l.h[2]>>]
+CEdit == /\ phase = "done" /\ oi = 1
+         /\ \E e \in CEdits : /\ regs' = {CEditRect(r, e) : r \in regs}
+                               /\ lines' = [n \in 1..Len(lines) |-> CEditLine(lines[n], e)]
+         /\ placed' = {} /\ oi' = 2 /\ phase' = "c-detect"
+         /\ UNCHANGED <<opt, page, mi>>
+CNext == CAssign \/ CMerge \/ CEdit
 
 CPieceOfDetected == \A p \in placed : /\ p.pts = CScale(CPts(lines[p.line]), p.s)
                                       /\ \A m \in DOMAIN p.pts : CInRect(CRect(p.region), p.pts[m], p.s)
